@@ -1,0 +1,54 @@
+//! Hooks for the external model-checking harness (compiled only with
+//! `--cfg zipora_verif`).  Nothing here changes library behaviour: a point is
+//! a call through a process-global function pointer that is null unless a
+//! harness installed one.
+
+use std::sync::atomic::{AtomicUsize, Ordering};
+
+/// Signature of the installed hook: `(site, a, b)`.
+pub type PointFn = fn(&'static str, usize, usize);
+
+static POINT: AtomicUsize = AtomicUsize::new(0);
+
+/// Install the process-global hook.
+pub fn install(f: PointFn) {
+    POINT.store(f as usize, Ordering::SeqCst);
+}
+
+/// Remove the hook (points become no-ops again).
+pub fn uninstall() {
+    POINT.store(0, Ordering::SeqCst);
+}
+
+/// A schedule/observation point.
+#[inline]
+pub fn point(site: &'static str, a: usize, b: usize) {
+    let p = POINT.load(Ordering::Relaxed);
+    if p != 0 {
+        // SAFETY: only `install` stores non-zero values, always a valid `PointFn`.
+        let f: PointFn = unsafe { std::mem::transmute::<usize, PointFn>(p) };
+        f(site, a, b);
+    }
+}
+
+/// Scheduler-visible critical section: `enter` is reported before the real
+/// lock is taken, the release when this value is dropped (declare it on the
+/// line before the real guard so that it is dropped after it).
+pub struct LockScope {
+    addr: usize,
+}
+
+impl LockScope {
+    #[inline]
+    pub fn enter(addr: usize) -> Self {
+        point("lock.acquire", addr, 0);
+        LockScope { addr }
+    }
+}
+
+impl Drop for LockScope {
+    #[inline]
+    fn drop(&mut self) {
+        point("lock.release", self.addr, 0);
+    }
+}
